@@ -183,8 +183,34 @@ func c06Replay(c *Case, realm RealmSetup, steps []scriptStep, k int, inside, rem
 		if removeRealm {
 			shutdown = func() { w.Router.RemoveRealm(wamp.URI(realm.Name)) }
 		}
+		// a client joining another realm while the removal is in progress must not have to wait for it
+		var joiner *sim.Puppet
+		joinAt := w.Now()
+		if removeRealm {
+			joiner = w.AddPuppet(sim.PuppetSpec{Kind: randomKind(c.Rng, 50)})
+			go func() {
+				time.Sleep(time.Millisecond) // the removal has started by then
+				joiner.Send(&wamp.Hello{Realm: "bystander", Details: wamp.Dict{"roles": sim.AllFeatures()}})
+			}()
+			joinAt += time.Millisecond
+		}
 		c.Hit("SD1")
 		returned := w.RunBlocked(shutdown, time.Second, 10*time.Second, time.Minute, 10*time.Minute)
+		if joiner != nil && returned {
+			w.Advance(2 * time.Millisecond) // the joiner's HELLO is sent 1 ms after the removal started
+			c.Hit("SD6")
+			var at time.Duration = -1
+			for _, o := range joiner.Log() {
+				if _, ok := o.Msg.(*wamp.Welcome); ok {
+					at = o.At
+				}
+			}
+			if at < 0 {
+				c.Fail("SD6", "join of another realm failed during RemoveRealm", "a client joining realm bystander while realm %s was being removed got no WELCOME: %s", realm.Name, obsString(joiner.Log(), 3))
+			} else if at != joinAt {
+				c.Fail("SD6", "join of another realm delayed by RemoveRealm", "a client that sent HELLO for realm bystander at virtual %v, while realm %s was being removed, was welcomed only at %v", joinAt, realm.Name, at)
+			}
+		}
 		if !removeRealm {
 			w.MarkClosed()
 		}
